@@ -1,4 +1,5 @@
 import Just.Model.Expr
+import Just.Model.Analyzer
 /-
 Token-level model of the expression printer (src/expression.rs `Display`, src/thunk.rs,
 src/condition.rs) and of the recursive-descent expression parser (src/parser.rs parse_expression,
@@ -6,7 +7,8 @@ parse_disjunct, parse_conjunct, parse_conditional, parse_condition, parse_value,
 
 Tokens are the lexer's tokens without white space; string and backtick tokens carry their lexeme
 (so a literal is printed back as it was written).  The recursion-depth guard of parse_expression is
-not modelled: a tree and its printed form nest identically.
+not modelled: a tree and its printed form nest identically.  `Thunk::resolve` is: a call of an unknown function or with
+a wrong number of arguments is a parse error.
 -/
 namespace Just.Syntax
 open Just
@@ -24,6 +26,13 @@ inductive Tk where
   deriving DecidableEq, Repr, Inhabited
 
 def opTk (o : CondOp) : Tk := .op o
+
+/-- `Thunk::resolve` (called by `parse_value` on every call): the function exists (`function::get`, table regenerated
+from src/function.rs) and takes this many arguments -/
+def fnOk (n : String) (k : Nat) : Bool :=
+  match Analyzer.functionClass n with
+  | some cls => Analyzer.classAccepts cls k
+  | none => false
 
 /-- The tokens of a string literal as it is displayed (`Display for StringLiteral`).  The payload of
 `Expr.str` is, in this model, the literal as displayed: the lexeme of its string token, preceded by `x`
@@ -196,7 +205,7 @@ def parseValue : Nat → List Tk → Option (Expr × List Tk)
     | .ident n :: .lparen :: r =>
       match parseSequence f r with
       | none => none
-      | some (args, r') => some (.call n args, r')
+      | some (args, r') => if fnOk n args.length then some (.call n args, r') else none
     | .ident n :: r => some (.var n, r)
     | .lparen :: r =>
       match parseExpression f r with
